@@ -690,6 +690,36 @@ fn run_pk(c: &PkCase) -> Outcome {
                 }
                 None => o.class = "ecdh-curve-not-modelled".into(),
             }
+            // model -> library: an ephemeral key of the model's own, once with an ordinary shared
+            // secret and once with one that begins with a zero octet (it must be used at full
+            // field width, RFC 9580 11.5)
+            let pub_body = sub.public_key().to_bytes().expect("ser");
+            for leading_zeros in [0usize, 1] {
+                let Some((eph_point, kek, z)) = kdf::ecdh_model_agree(&pub_body, fp.as_bytes(), 7, leading_zeros) else { continue };
+                let mut m = Vec::new();
+                if !c.v6 {
+                    m.push(sym);
+                }
+                m.extend_from_slice(&session);
+                m.extend_from_slice(&kdf::checksum16(&session));
+                let Some(w) = kdf::aes_kw_wrap(&kek, &kdf::ecdh_pad(&m)) else { continue };
+                let values = pgp::types::PkeskBytes::Ecdh { public_point: pgp::types::Mpi::from_slice(&eph_point), encrypted_session_key: w.into() };
+                let typ = if c.v6 { EskType::V6 } else { EskType::V3_4 };
+                match sub.decrypt(&Password::empty(), &values, typ) {
+                    Ok(Ok(sk)) => {
+                        let k = match &sk {
+                            PlainSessionKey::V3_4 { key, .. } | PlainSessionKey::V6 { key } | PlainSessionKey::V5 { key } => key.as_ref().to_vec(),
+                        };
+                        if k != session {
+                            o.push("C12:pkesk:ecdh:library-unwraps-model-packet-to-other-key", format!("{c:?}"));
+                        }
+                    }
+                    Ok(Err(e)) | Err(e) => o.push(
+                        "C12:pkesk:ecdh:library-cannot-unwrap-model-packet",
+                        format!("{c:?}: shared secret {} ({} leading zero octets): {e}", hex::encode(&z), z.iter().take_while(|b| **b == 0).count()),
+                    ),
+                }
+            }
         }
         _ => o.class = "algorithm-not-modelled".into(),
     }
